@@ -60,7 +60,7 @@ func (r *verifGoodReader) Close() error { r.closes++; return nil }
 type verifNoopHandler struct{ done, errs int }
 
 func (h *verifNoopHandler) OnError(err error) (Buffer, error) { h.errs++; return nil, err }
-func (h *verifNoopHandler) Done()                              { h.done++ }
+func (h *verifNoopHandler) Done()                             { h.done++ }
 
 type verifZ1Result struct {
 	size     int64
@@ -204,79 +204,7 @@ func Verif_C15_Z1_DecoratedClones() {
 // source is closed exactly once, nobody deadlocks or panics.
 //
 // symgo: maxpaths=400000
-func Verif_C15_Z2_Multiplexer() {
-	vnd.ExploreSchedules(true)
-	maxN := 2
-	ref := verifNewRef(maxN)
-	var script []verifDelivery
-	if vnd.Thorough() {
-		script = verifScript(2, 2)
-	} else {
-		// quick: four representative source behaviours (all chunkings of the object, an I/O
-		// error after the first chunk, wrong content)
-		switch vnd.Choose(4) {
-		case 0:
-			script = []verifDelivery{{data: ref.data, kind: verifDeliverNil}}
-		case 1:
-			script = []verifDelivery{{data: ref.data[:1], kind: verifDeliverNil}, {data: ref.data[1:], kind: verifDeliverNil}}
-		case 2:
-			script = []verifDelivery{{data: ref.data[:1], kind: verifDeliverNil}, {kind: verifDeliverErr}}
-		case 3:
-			script = []verifDelivery{{data: vnd.Bytes(2), kind: verifDeliverNil}}
-		}
-	}
-	src := &verifChunkSource{script: script}
-	integ := &verifIntegrity{}
-	base := NewCASBufferFromChunkReader(ref.digest, src, BackendProvided(integ.callback))
-	b1, b2 := base.CloneStream()
-	type outcome struct {
-		data    []byte
-		err     error
-		readAll bool
-	}
-	var o [2]outcome
-	done := make(chan struct{}, 2)
-	consume := func(i int, b Buffer, prog int) {
-		switch prog {
-		case 0: // read everything
-			r := b.ToChunkReader(0, 2)
-			for k := 0; k < 8; k++ {
-				c, err := r.Read()
-				o[i].data = append(o[i].data, c...)
-				if err != nil {
-					o[i].err = err
-					break
-				}
-			}
-			r.Close()
-			o[i].readAll = true
-		case 1: // read one chunk, then give up
-			r := b.ToChunkReader(0, 2)
-			r.Read()
-			r.Close()
-		case 2:
-			b.Discard()
-		}
-		done <- struct{}{}
-	}
-	p1, p2 := vnd.Choose(3), vnd.Choose(3)
-	go consume(0, b1, p1)
-	go consume(1, b2, p2)
-	<-done
-	<-done
-	vnd.Assert(src.closes == 1, "underlying source not closed exactly once")
-	if o[0].readAll && o[1].readAll {
-		vnd.Cover("both-read-all")
-		vnd.Assert(verifBytesEqual(o[0].data, o[1].data), "two consumers of the same stream saw different bytes")
-		vnd.Assert((o[0].err == io.EOF) == (o[1].err == io.EOF), "one consumer completed while the other failed")
-	}
-	for i := 0; i < 2; i++ {
-		if o[i].readAll && o[i].err == io.EOF {
-			vnd.Cover("completed")
-			vnd.Assert(verifBytesEqual(o[i].data, ref.data), "a consumer completed with bytes other than the object's")
-		}
-	}
-}
+func Verif_C15_Z2_Multiplexer() { verifScenarioMultiplexer() }
 
 // Verif_C15_Z3_TaskCompletion: a buffer with a background task does not report
 // completion before the task has finished, under all interleavings; the task's
@@ -305,7 +233,7 @@ func Verif_C15_Z3_TaskCompletion() {
 	})
 	var got []byte
 	var err error
-	switch vnd.Choose(3) {
+	switch vnd.Choose(4) {
 	case 0:
 		got, err = b.ToByteSlice(100)
 	case 1:
@@ -317,6 +245,22 @@ func Verif_C15_Z3_TaskCompletion() {
 		got, err = io.ReadAll(r)
 		if cerr := r.Close(); err == nil {
 			err = cerr
+		}
+	case 3:
+		// chunked consumption: the end of the stream (io.EOF) is the completion report
+		r := b.ToChunkReader(0, 1+vnd.Choose(2))
+		for i := 0; i < 8; i++ {
+			var c []byte
+			c, err = r.Read()
+			got = append(got, c...)
+			if err != nil {
+				break
+			}
+		}
+		vnd.Assert(taskFinished, "a chunk reader with a background task reported the end of the stream (or an error) before the task had finished")
+		r.Close()
+		if err == io.EOF {
+			err = nil
 		}
 	}
 	vnd.Assert(taskFinished, "a buffer with a background task reported completion before the task had finished")
